@@ -73,4 +73,15 @@ def coolTop (isVISF : Bool) (p : VISF α) (dt : α) (i : Nat) (dz lambda_eff dif
   let q_e := qE isVISF p .cooling t T_top
   coolTopStep (diffusivity * dt / Transc.pow dz (Num.lit 2 0)) T_top T_below (topGhost T_top q_e dz lambda_eff)
 
+/-- A whole stage of the loop, abstracted: the loop body is an ARBITRARY function `F` of the
+evaporative flux `q_e`, the step index and the state (the configuration enters the body of
+snowing.py's 1D loops only through `q_e`: l.653-679 and l.848-875); `top` reads the top
+temperature off the state; step `i` is taken at time `t0 + dt*i`. -/
+def runStage {σ : Type} (isVISF : Bool) (p : VISF α) (s : Stage) (dt t0 : α) (top : σ → α)
+    (F : α → Nat → σ → σ) : Nat → σ → σ
+  | 0, st => st
+  | n + 1, st =>
+    let st' := runStage isVISF p s dt t0 top F n st
+    F (qE isVISF p s (t0 + dt * Num.ofNat' n) (top st')) n st'
+
 end Snow.EvapWindow
